@@ -334,6 +334,16 @@ fn nested(pre: &str, open: &str, n: usize, mid: &str, close: &str, post: &str) -
     Single { text, stream: "deep-nesting", process: n <= 200, cli: "all", built: Some(built) }
 }
 
+/// a chain of operators: `first` then n - 1 times `more`, between `pre` and `post` (finding
+/// C06-F23: the parser folds a chain with a loop into a tree as tall as the chain is long; the
+/// height of the tree is bounded by MAX_EXPR_HEIGHT = 256 since the fix)
+fn chain(pre: &str, first: &str, more: &str, n: usize, post: &str) -> Single {
+    let mut s = nested(&format!("{}{}", pre, first), more, n.saturating_sub(1), "", "", post);
+    s.stream = "long-chain";
+    s.process = true;
+    s
+}
+
 /// commodities that stress the display-width oracle of the printer's balance column: wide,
 /// zero-width and combining characters, variation selectors, ZWJ sequences, regional
 /// indicators, Khmer coeng, Tifinagh joiner, Arabic lam-alef, Lisu tones
@@ -440,6 +450,49 @@ fn singles(o: &Opts, r: &mut Rng) -> Vec<Single> {
         v.push(nested("2024/01/01 ", "(", n, "c", ")", " p\n"));
         v.push(nested("", ";", n, "", "\n", ""));
         v.push(nested("2024/01/01 x\n", "  A  1 USD\n", n.min(300), "", "", "  B\n"));
+    }
+    // long chains of operators (C06-F23): around the height bound 256 and far beyond it, as
+    // posting amount, cost, lot price and balance assertion, with + * and mixed operators,
+    // flat and inside nested parentheses
+    let lengths: &[usize] = if o.thorough { &[200, 255, 256, 257, 1000, 10000, 50000, 200000] } else { &[200, 255, 256, 257, 1000, 50000, 200000] };
+    for &n in lengths {
+        let t = "2024/01/01 x\n";
+        v.push(chain(&format!("{}  A  (", t), "1 USD", " + 1 USD", n, ")\n  B\n"));
+        v.push(chain(&format!("{}  A  (", t), "1 USD", " * 1", n, ")\n  B\n"));
+        v.push(chain(&format!("{}  A  (", t), "1", "+1", n, ")\n  B\n"));
+        v.push(chain(&format!("{}  A  (", t), "8 USD", "/1", n, ")\n  B\n"));
+        v.push(chain(&format!("{}  A  (", t), "1 USD", " - 2 USD * 3 + 4 USD / 5", n, ")\n  B\n"));
+        v.push(chain(&format!("{}  A  (", t), "-1 USD", " - -1 USD", n, ")\n  B\n"));
+        v.push(chain(&format!("{}  A  ((", t), "1 USD", " + 1 USD", n, ") * 2)\n  B\n"));
+        v.push(chain(&format!("{}  A  (2 * -(", t), "1 USD", " + 1 USD", n, "))\n  B\n"));
+        v.push(chain(&format!("{}  A  1 AAA @ (", t), "1 USD", " + 1 USD", n, ")\n  B\n"));
+        v.push(chain(&format!("{}  A  1 AAA @@ (", t), "1 USD", " * 1", n, ")\n  B\n"));
+        v.push(chain(&format!("{}  A  1 AAA {{(", t), "1 USD", " + 1 USD", n, ")}\n  B\n"));
+        v.push(chain(&format!("{}  A  1 USD = (", t), "1 USD", " + 0 USD", n, ")\n  B\n"));
+        v.push(chain(&format!("{}  A  = (", t), "0", " + 0", n, ")\n"));
+        v.push(chain(&format!("{}  A  ", t), "1 USD", " + 1 USD", n, "\n  B\n"));
+        v.push(chain(&format!("{}  A  (", t), "1 USD", " + 1 USD", n, "\n  B\n"));
+    }
+    // chains inside nested parentheses: each level is 3 taller (1 + 3n: 85 levels = 256), left
+    // and right nested; and chains of chains
+    for n in [50usize, 84, 85, 86, 100, 101, 1000, 50000] {
+        let mut s = nested("2024/01/01 x\n  A  ", "(", n, "1 USD", " + 1 USD + 1 USD)", "\n  B\n");
+        s.stream = "long-chain";
+        s.process = true;
+        v.push(s);
+        let mut s = nested("2024/01/01 x\n  A  ", "(1 USD + 1 USD + ", n, "1 USD", ")", "\n  B\n");
+        s.stream = "long-chain";
+        s.process = true;
+        v.push(s);
+        let mut s = nested("2024/01/01 x\n  A  1 USD = ", "(-", n, "1 USD", " * 1 * 1)", "\n");
+        s.stream = "long-chain";
+        s.process = true;
+        v.push(s);
+    }
+    for (k, m) in [(3usize, 84usize), (3, 85), (100, 100), (300, 300)] {
+        // k chains of m operands each, added up: height m + k - 1 (+ 1 for the parentheses)
+        let inner = format!("1 USD{}", " * 1".repeat(m - 1));
+        v.push(chain("2024/01/01 x\n  A  (", &inner, &format!(" + {}", inner), k, ")\n  B\n"));
     }
     // huge and tiny literals
     for n in [27usize, 28, 29, 30, 38, 39, 40, 100, 1000, 100000] {
@@ -771,7 +824,7 @@ fn bin_run(bin: &str, args: &[String], timeout_ms: u64) -> String {
 pub fn run(o: &Opts) {
     let mut st = Stats::new();
     let mut sh = Shards::new(&o.out, o.shards, &crate::c05::header("Classify_C06"));
-    st.rule = "cases: every prefix (cut at every character) of generated valid ledgers; random strings over the ledger alphabet and arbitrary Unicode; generated ledgers with deleted/inserted/swapped/mutated lines; generated ledgers that book, whole and cut at every line; 100..100000 nested parentheses, minus signs and repeated lines; literals of 27..100000 digits; zero rates, zero amounts and self rates in every position; balance assertions in commodities of wide, zero-width and sequence-forming characters; include graphs with self-includes and cycles, on a FakeFileSystem (Loader::load, report::process) and as files of the real file system; price-DB files with malformed lines, zero rates, self rates, cut at every character; numerically adversarial valid ledgers (declared formats, half-unit and sub-precision residues beside other commodities, zero amounts with costs and lots, two- and three-commodity residuals); unicode-width measured directly on expression heads followed by a space and sequence-forming characters. Each runs in a child process (5 s watchdog): parse_ledger, FormatOptions::format, report::process, balance and postings queries, and the commands format / balance / balance -X (up to date, --historical, with a date range) / register / accounts (/ --price-db) in-process on the real file; the corpus, the include graphs and the price-DB cases also through the built okane binary in fresh processes (exit status, signal, 5 s limit). non-trivial = the text is not accepted as a fully valid ledger or a command answered an error (an error path ran); distinct by input".to_string();
+    st.rule = "cases: every prefix (cut at every character) of generated valid ledgers; random strings over the ledger alphabet and arbitrary Unicode; generated ledgers with deleted/inserted/swapped/mutated lines; generated ledgers that book, whole and cut at every line; 100..100000 nested parentheses, minus signs and repeated lines; chains of 200..200000 operators (+ * / mixed, flat, nested, as amount, cost, lot price and balance assertion) around and far beyond the height bound 256; literals of 27..100000 digits; zero rates, zero amounts and self rates in every position; balance assertions in commodities of wide, zero-width and sequence-forming characters; include graphs with self-includes and cycles, on a FakeFileSystem (Loader::load, report::process) and as files of the real file system; price-DB files with malformed lines, zero rates, self rates, cut at every character; numerically adversarial valid ledgers (declared formats, half-unit and sub-precision residues beside other commodities, zero amounts with costs and lots, two- and three-commodity residuals); unicode-width measured directly on expression heads followed by a space and sequence-forming characters. Each runs in a child process (5 s watchdog): parse_ledger, FormatOptions::format, report::process, balance and postings queries, and the commands format / balance / balance -X (up to date, --historical, with a date range) / register / accounts (/ --price-db) in-process on the real file; the corpus, the long chains, the include graphs and the price-DB cases also through the built okane binary in fresh processes (exit status, signal, 5 s limit). non-trivial = the text is not accepted as a fully valid ledger or a command answered an error (an error path ran); distinct by input".to_string();
     st.assumptions.push("report::process, the queries and the report commands are skipped for literals beyond 12 digits; report::process and the queries for nesting beyond 200 (the property exempts numbers outside the representable decimal range); `okane format` runs on all of them".to_string());
     st.assumptions.push("the clock is an input: every report command gets --now".to_string());
     let mut r = Rng::new(o.seed, 6);
@@ -941,7 +994,7 @@ pub fn run(o: &Opts) {
     }
     // 5. the corpus texts through the built binary
     if let Some(b) = &bin {
-        let corpus: Vec<&Single> = items.iter().filter(|i| i.stream == "corpus" || i.stream == "corpus-file" || i.stream == "width-oracle" || i.stream == "zero-positions").collect();
+        let corpus: Vec<&Single> = items.iter().filter(|i| i.stream == "corpus" || i.stream == "corpus-file" || i.stream == "width-oracle" || i.stream == "zero-positions" || i.stream == "long-chain").collect();
         for (ci, it) in corpus.iter().enumerate() {
             let main = scratch.write(&format!("c{}/main.ledger", ci), &it.text).to_string_lossy().to_string();
             let x = some_commodity(&it.text);
@@ -963,7 +1016,8 @@ pub fn run(o: &Opts) {
             }
             st.count("stream:binary-corpus");
             st.eval(&("bin", &it.text), bin_obs.iter().any(|s| s.starts_with("err")));
-            let rep = json!({"property": "C06", "text": it.text, "stream": "binary-corpus", "binary": bin_obs,
+            let shown: String = if it.text.len() > 400 { format!("{}… ({} bytes)", it.text.chars().take(200).collect::<String>(), it.text.len()) } else { it.text.clone() };
+            let rep = json!({"property": "C06", "text": if it.text.len() <= 20000 { json!(it.text) } else { json!(null) }, "shown": shown, "stream": "binary-corpus", "binary": bin_obs,
                              "commands_binary": ["format", "balance", format!("balance -X {} --now 2024-06-01", x), format!("balance -X {} --historical --now 2024-06-01", x), "register --now 2024-06-01", "accounts"],
                              "reproduce": "the built okane binary, one fresh process per command, on the text written to main.ledger"});
             sh.push(format!("CmdCase [] {}", outcome_list(&bin_obs)), vec![rep]);
